@@ -431,7 +431,8 @@ def run(ctx):
                            "resolutions": n_res, "generate_extracts": len(gcases)}
     ctx.notes["input_distribution"] = {"tokens_per_expression": dict(sorted(sizes.items()))}
     ctx.coverage["distinct_nontrivial"] = nontrivial
-    ctx.coverage["exhaustive"] = f"generate: every (m, n) with m <= {M} requirement keys and n <= {N} format keys; ranges: every key 0..3000"
+    ctx.coverage["exhaustive"] = False
+    ctx.notes["exhaustive_scope"] = f"generate: every (m, n) with m <= {M} requirement keys and n <= {N} format keys; ranges: every key 0..3000"
     ctx.coverage["rule"] = ("tie T: Gen_ranges on 3001 + zero-padded/large + malformed keys; tie C: extraction on random well-formed expressions (1-12 atoms, keys on and "
                             "around the documented boundaries, packages, time conditions, 4% out-of-range keys, zero-padded keys), with sanitize on/off, on key lists, on trees "
                             "after package / time-condition resolution, __add__, and the generated results as ordered lists; non-trivial = expressions with >= 2 distinct "
